@@ -17,16 +17,18 @@ class Ctx:
         # implementation-only (e.g. runs far beyond the model's instruction budget);
         # their model line is the constant SKIPPED and is never compared
         self.skip = getattr(mod, "MODEL_SKIP", None)
+        # optional CASES_PER_SHARD: modules whose cases are expensive ask for more, smaller shards
+        self.kw = {"per_shard": mod.CASES_PER_SHARD} if hasattr(mod, "CASES_PER_SHARD") else {}
 
     def impl(self, cases, profile=None):
         exe = self.impl_exes[profile or sorted(self.impl_exes)[0]]
-        return C.run_impl(exe, cases)
+        return C.run_impl(exe, cases, **self.kw)
 
     def model(self, cases):
         if self.skip is None:
-            return C.run_model(self.model_exe, cases)
+            return C.run_model(self.model_exe, cases, **self.kw)
         keep = [i for i, c in enumerate(cases) if not self.skip(c)]
-        lines = C.run_model(self.model_exe, [cases[i] for i in keep])
+        lines = C.run_model(self.model_exe, [cases[i] for i in keep], **self.kw)
         out = [SKIPPED] * len(cases)
         for i, l in zip(keep, lines):
             out[i] = l
